@@ -164,6 +164,19 @@ CHECKS = {
             "'blocks forever'; a bare timeout is inconclusive. The enumeration site x direction x position is complete.",
             "Sites at/below the cipher in the byte stream (network, segments, noise on receive) are only required not to block on the same connection and to work after a reconnect (an AEAD stream cannot lose bytes).",
             "DESIGN.md 4/C12"),
+    "C16": ("exploration",
+            "runtime monitor: reference connection state machine stepped in lock-step with a real full-stack client (scripted dispatcher, Noise responder double, virtual clock for the keep-alive thread), compared on probe/dispatcher/wire counters after every event",
+            "300 (quick) / 30 000 (thorough) histories of 6-16 events over {connect request, connected, socket error, peer close, "
+            "disconnect request, success, failure, 3 stream-error kinds, clock tick, pong} with options reconnect on/off (set or "
+            "left at its default), ping interval 1-3 ticks, passive, synchronous/deferred close callback, close reported once or "
+            "twice by the dispatcher. The real keep-alive thread runs on a virtual clock (module attribute substituted), deferred "
+            "events go through the library's own queue. After every event the reference machine's expected counts (connect "
+            "calls, connected/disconnected/authenticated announcements above the network layer and at the top, login attempts = "
+            "fresh prologue+hello accepted by the responder, pings on the wire, failures/stream errors delivered upward, "
+            "library-initiated closes, writes to a dead dispatcher, reported connection status, presented passive flag) are "
+            "compared with what probes, dispatcher log and responder observed. Four seeded mutants are caught.",
+            "Trusted: the reference machine (our reading of the statement), scripted dispatcher. First login (key upload, reconnect) precedes the judged history. Real socket/asyncore dispatchers: see DESIGN.md.",
+            "DESIGN.md 4/C16"),
 }
 
 NOT_BUILT = "check not built yet in this session (planned, see DESIGN.md section 4)"
